@@ -1694,6 +1694,7 @@ def grid_annulus(P, rep, rule="GRID.annulus"):
         envc[ik] = I_
         envc[jk] = J_
         B = Block(P, F, choose=choose)
+        B.decide_ternaries = True
         B.sym.env.update(envc)
         for v_ in F.walk(blk):
             if v_.get("k") == "VarDecl" and v_.get("n") == "counter":
